@@ -118,6 +118,16 @@ func (s *RefreshableFileDataSource) Initialize() error {
 					}
 				}
 				_, srcErr := os.Stat(s.sourceFilePath)
+				if ev.Op&fsnotify.Chmod == fsnotify.Chmod && srcErr == nil {
+					// A file that is replaced by a rename over it while it lives on elsewhere - under another
+					// name, or in the hands of a process that has it open - loses a link, and that is all its
+					// watch announces. The file under the watched name may be another one now: the watch is put
+					// on it (again), before it is read below.
+					_ = s.watcher.Remove(s.sourceFilePath)
+					if e := s.watcher.Add(s.sourceFilePath); e != nil {
+						logging.Error(e, "Failed to add to watcher", "sourceFilePath", s.sourceFilePath)
+					}
+				}
 				if ev.Op&fsnotify.Remove == fsnotify.Remove && srcErr == nil {
 					// Not the file under the watched name: a watch is on the inode, and what was removed is a file
 					// that used to carry the name - moved aside and deleted after a new file had been written in
